@@ -165,7 +165,7 @@ func (s indiSpec) text(ptr string) string {
 func (s indiSpec) key() string { return strings.Join(s.Names, ";") + "|" + s.Birth + "|" + s.Death }
 
 func indiUniverse() []indiSpec {
-	nameSets := [][]string{nil, {"John /Smith/"}, {"Mary /Jones/"}, {"John /Smith/", "Mary /Jones/"}, {"Jon /Smyth/"}}
+	nameSets := [][]string{nil, {"John /Smith/"}, {"Mary /Jones/"}, {"John /Smith/", "Mary /Jones/"}, {"Jon /Smyth/"}, {"Mary /Jones/", "John /Smith/"}, {"Mary /Jones/", "Mary /Smith/", "Jon /Smyth/"}}
 	births := []string{"", "3 Mar 1850", "3 Mar 1851", "3 Mar 1855", "BAPM:10 Mar 1850"}
 	deaths := []string{"", "9 Sep 1910", "BURI:12 Sep 1910"}
 	var out []indiSpec
@@ -408,6 +408,43 @@ func judgeFamilies(a, b string, sa, sb string) (sig, what string) {
 			}
 			if fa.Husband() == nil && fa.Wife() == nil && x != 0.5 {
 				return "family:no-spouses-not-0.5", dd
+			}
+		}
+	}
+	// a score is a function of the data: an operand compared with ITSELF (the same object) must
+	// score what it scores against an equal, separately decoded copy (so that missing information
+	// stays at its neutral 0.5 there, too)
+	if a == b && sa == sb {
+		for i, fa := range A.Families() {
+			if x, y := fa.Similarity(fa, 0, so), fa.Similarity(B.Families()[i], 0, so); math.Abs(x-y) > symTol {
+				return "family:same-object-scores-differently-from-equal-copy", fmt.Sprintf("%s family %d: with itself %v, with an equal copy %v", d, i, x, y)
+			}
+		}
+		for i, ia := range A.Individuals() {
+			if x, y := ia.Similarity(ia, so), ia.Similarity(B.Individuals()[i], so); math.Abs(x-y) > symTol {
+				return "individual:same-object-scores-differently-from-equal-copy", fmt.Sprintf("%s individual %d: with itself %v, with an equal copy %v", d, i, x, y)
+			}
+			s1, s2 := ia.SurroundingSimilarity(ia, so, true), ia.SurroundingSimilarity(B.Individuals()[i], so, true)
+			if math.Abs(s1.WeightedSimilarity()-s2.WeightedSimilarity()) > symTol {
+				return "surrounding:same-object-scores-differently-from-equal-copy", fmt.Sprintf("%s individual %d: with itself %v, with an equal copy %v", d, i, s1.WeightedSimilarity(), s2.WeightedSimilarity())
+			}
+		}
+	}
+	// weights that differ from each other (the defaults are equal): the weighted score stays in [0,1] and symmetric
+	for _, w := range [][4]float64{{0.5, 0.25, 0.125, 0.125}, {0.125, 0.125, 0.25, 0.5}, {0.1, 0.2, 0.3, 0.4}, {0.4, 0.3, 0.2, 0.1}, {0, 1, 0, 0}, {0, 0, 1, 0}, {0, 0, 0, 1}} {
+		wo := gedcom.NewSimilarityOptions()
+		wo.IndividualWeight, wo.ParentsWeight, wo.SpousesWeight, wo.ChildrenWeight = w[0], w[1], w[2], w[3]
+		for i, ia := range A.Individuals() {
+			for j, ib := range B.Individuals() {
+				x := ia.SurroundingSimilarity(ib, wo, true).WeightedSimilarity()
+				y := B2.Individuals()[j].SurroundingSimilarity(A2.Individuals()[i], wo, true).WeightedSimilarity()
+				dd := fmt.Sprintf("%s individual %d vs %d weights %v: weighted=%v swapped=%v", d, i, j, w, x, y)
+				if !inRange(x) {
+					return "surrounding:weighted:out-of-range", dd
+				}
+				if math.Abs(x-y) > symTol {
+					return "surrounding:weighted:asymmetric", dd
+				}
 			}
 		}
 	}
